@@ -24,7 +24,19 @@ pub(crate) fn impl_inverse_uint_scale(n: &BigUint, scale: i64, ctx: &Context) ->
 
     // TODO: Prove that we don't need to arbitrarily limit iterations
     // and that convergence can be calculated
+    #[cfg(bigdecimal_verif)]
+    let mut verif_iteration_count: u32 = 0;
+
     while prev_result != result {
+        #[cfg(bigdecimal_verif)]
+        {
+            // verification hook: turn non-termination into a decided outcome
+            verif_iteration_count += 1;
+            if verif_iteration_count > 2000 {
+                panic!("bigdecimal_verif: inverse iteration cap exceeded");
+            }
+        }
+
         // store current result to test for convergence
         prev_result = result;
 
